@@ -204,7 +204,11 @@ class StructCore(object):
                 res = res.ljust(self.size(psize), b"\0")
             return res
         else:
-            return parts[self.union]
+            res = parts[self.union]
+            if not self.packed:
+                # (the largest member may be smaller than the union)
+                res = res.ljust(self.size(psize), b"\0")
+            return res
 
     def offset_of(self, name, psize=0):
         if self.union is not False:
